@@ -1,0 +1,8 @@
+//go:build !verif
+
+package mpb
+
+// vhook is a no-op unless built with the verif tag.
+func vhook(point string, bar *Bar, a, b int) {}
+
+func verifErrFlag(err error) int { return 0 }
